@@ -400,34 +400,49 @@ func c14Go(c *Ctx, pk *packages.Package) {
 		if rt := recvTypeName(locMethod); rt != "" {
 			name = rt + "." + name
 		}
-		fd, _ := p.FuncDecl("internal/validator", name)
-		okLoc := false
-		if fd != nil && fd.Body != nil {
-			// v, ok := table[id]; if ok { return v } ... return default
-			var tableHit, def bool
-			ast.Inspect(fd.Body, func(n ast.Node) bool {
-				if ifs, ok := n.(*ast.IfStmt); ok {
-					if cid, ok := ast.Unparen(ifs.Cond).(*ast.Ident); ok {
-						_ = cid
-						for _, st := range ifs.Body.List {
-							if ret, ok := st.(*ast.ReturnStmt); ok && len(ret.Results) == 1 {
-								if _, ok := ast.Unparen(ret.Results[0]).(*ast.Ident); ok {
-									tableHit = true
-								}
-							}
-						}
-					}
+		fd, lpk := p.FuncDecl("internal/validator", name)
+		okLoc, whyLoc := false, "the file lookup could not be evaluated"
+		if fd != nil && fd.Body != nil && lpk != nil {
+			// decided on the values the method returns (E-sym): the table entry of exactly the id it was asked about, or
+			// the default location; nothing computed from the id, no search for similar ids
+			idPrm := firstParamObj(lpk.TypesInfo, fd)
+			var recvObj types.Object
+			if fd.Recv != nil && len(fd.Recv.List) == 1 && len(fd.Recv.List[0].Names) == 1 {
+				recvObj = lpk.TypesInfo.Defs[fd.Recv.List[0].Names[0]]
+			}
+			hits, defaults := 0, 0
+			var problems []string
+			proto := &symWalker{Inline: samePkgInline(lpk)}
+			proto.OnReturn = func(w *symWalker, ret *ast.ReturnStmt, results []*Sym) {
+				if w.depth != 0 || len(results) != 1 {
+					return
 				}
-				if ret, ok := n.(*ast.ReturnStmt); ok && len(ret.Results) == 1 {
-					if sel, ok := ast.Unparen(ret.Results[0]).(*ast.SelectorExpr); ok && strings.Contains(sel.Sel.Name, "Default") {
-						def = true
-					}
+				v := results[0]
+				ofRecv := func(x *Sym) bool {
+					return x != nil && x.K == symField && x.X != nil && x.X.K == symVar && x.X.Obj == recvObj
 				}
-				return true
-			})
-			okLoc = tableHit && def
+				switch {
+				case len(w.Loops()) > 0:
+					problems = append(problems, "a value is returned from inside a loop ("+shortFormat(v.String())+"): the lookup searches instead of reading the entry of the id it was given")
+				case v.K == symIndex && ofRecv(v.X) && v.Y != nil && v.Y.K == symVar && v.Y.Obj == idPrm:
+					hits++
+				case ofRecv(v):
+					defaults++
+				default:
+					problems = append(problems, "the method returns "+shortFormat(v.String())+", which is neither the table entry of the id it was given nor the default location")
+				}
+			}
+			p.SymWalk(lpk, fd, proto, nil)
+			switch {
+			case len(problems) > 0:
+				whyLoc = strings.Join(problems, "; ")
+			case hits == 0 || defaults == 0:
+				whyLoc = fmt.Sprintf("the method has %d return(s) of the recorded file and %d of the default location: both are needed", hits, defaults)
+			default:
+				okLoc = true
+			}
 		}
-		r.Check(okLoc, "C14.K2", "internal/validator."+name, "", "returns the per-element file when recorded, the default location otherwise", "the file lookup does not have the shape `if recorded { return it } return default`")
+		r.Check(okLoc, "C14.K2", "internal/validator."+name, "", "returns the file recorded for exactly the id asked about, the default location otherwise", "the file lookup is not `the entry recorded for this id, else the root location`: "+whyLoc)
 	}
 	// default location = doc#rootLocation; per-element file = that location node's doc#location
 	rootOK, locOK := false, false
